@@ -19,10 +19,12 @@ CFG = dict(
         "Props.C06.sys_reach_inv", "Props.C06.sys_partition_trace", "Props.C06.sys_committed_was_marked",
         "Props.C06.request_blocks_are_commits", "Props.C06.sys_request_blocks_marked",
         "Props.C06.close_flushes_latest",
+        # initial fetch of ManagePartition
+        "Props.C06.fetch_ok_is_answered_ok", "Props.C06.fetch_budget_exhausted_fails",
         # bridge obligations (regenerated definitions = model)
         "Bridge.C06.markOffset_eq", "Bridge.C06.resetOffset_eq", "Bridge.C06.updateCommitted_eq",
         "Bridge.C06.nextOffset_eq", "Bridge.C06.asyncClose_eq", "Bridge.C06.releaseDue_eq",
-        "Bridge.C06.snapshotIf_eq", "Bridge.C06.respCases_eq",
+        "Bridge.C06.snapshotIf_eq", "Bridge.C06.respCases_eq", "Bridge.C06.fetchCases_eq",
         "Bridge.C06.pstep_mark_fields", "Bridge.C06.pstep_reset_fields", "Bridge.C06.pstep_verdict_ok_fields",
         "Bridge.C06.pstep_release_live", "Bridge.C06.pstep_snap_block", "Bridge.C06.nextAnswer_eq",
         # the body of handleResponse's loop (switch incl. fallthrough) = the model's per-verdict effects
@@ -31,7 +33,7 @@ CFG = dict(
     ],
     # n = random wire cases per run; the harness adds n/10+200 steered windows, n/8+150 connection-failure scenarios (half of them with
     # the real sarama client), n/8 random wire cases with the real sarama client, 20 (quick) / 300 (thorough) concurrent stress cases,
-    # n/2 fine-grained random cases and
+    # n/8+150 initial-fetch fault scenarios (half of them outlasting Metadata.Retry.Max), n/2 fine-grained random cases and
     # the exhaustive fine-grained enumeration (length <= 4 quick: 22 620 cases; <= 5 once per thorough run: 271 452)
     n={"quick": 2000, "thorough": 100000, "search": 3000},
     thorough_seeds=2,
@@ -49,7 +51,8 @@ CFG = dict(
         "connection failure the coordinator stays on the same id and address and the next lookup hands back the SAME Broker object after Open() "
         "(what sarama's client does; the scripted client of the harness does the same, and part of the cases run with the real sarama.NewClient), "
         "so the model's 'the next flush reaches the coordinator again' depends on flushToBroker closing the failed connection; "
-        "fetchInitialOffset's own retry loop is not part of this property (the fetch succeeds in model and harness)",
+        "fetchInitialOffset is modelled as a function of a per-attempt fault script (coordinator moved, offsets loading, request error, lookup "
+        "failure, missing block, other error) and Metadata.Retry.Max; its back-off sleep is not timed",
         "the auto-commit ticker is replaced by explicit Commit() calls (ticker timing is a stated gap); marks concurrent with Close() are outside "
         "the property (\"latest mark made before Close\")",
     ],
@@ -63,7 +66,10 @@ CFG["manifest"] = dict(
          "not dirty => pending pair = stored pair (dirty is cleared only by NoError for a block equal to the pending pair); commits and the "
          "stored offset are monotone along runs without accepted reset; a mark accepted while a commit is in flight leaves the partition dirty "
          "and is the block of the next snapshot; Close with auto-commit stores the pair pending at Close for every registered partition if one "
-         "of the Retry.Max+1 attempts is accepted (system-level theorem over partitions, cached coordinator, lookup failures, early loop exit). "
+         "of the Retry.Max+1 attempts is accepted (system-level theorem over partitions, cached coordinator, lookup failures, early loop exit); "
+         "ManagePartition creates a pom only from an OffsetFetch attempt answered NoError within Metadata.Retry.Max+1 attempts and returns an "
+         "error when every permitted attempt meets a retryable failure (fetchInitial model, tied by correspondence + the oracle 'a new pom starts "
+         "at the stored pair'; only the labels of its error switch are bridged). "
          "A system model (all partitions, broker cache, request under way) is proved to project onto partition runs, and its request blocks to "
          "be the partitions' newest commit-log entries. Tie: MarkOffset, ResetOffset, updateCommitted, NextOffset, AsyncClose, the releaseDue "
          "expression, the `if pom.dirty {AddBlock…}` fragment, the case labels of handleResponse's error switch AND the whole body of handleResponse's loop "
@@ -74,7 +80,7 @@ CFG["manifest"] = dict(
     note="Trusted: Lean kernel; translator tools/extract + GoSem.lean; harness/line protocol; sarama's MockBroker as transport of the scripted "
          "coordinator. Opaque calls inside the translated fragments (updateCommitted, releaseCoordinator, handleError, AddBlock) are matched by their "
          "literal statement text and represented by ghost variables. Not covered: "
-         "ticker timing, several concurrent committers, fetchInitialOffset failures, real goroutine interleavings inside one visit loop "
+         "ticker timing, several concurrent committers, real goroutine interleavings inside one visit loop "
          "(argued by commutation, exercised only at the granularity of whole visits).",
     technique="Lean 4 proof (invariants + induction over operation lists, projection of a system model onto partition runs) + regenerated "
               "bridge obligations + differential correspondence (wire-level scripted coordinator over real TCP connections with marks steered into the commit window, "
